@@ -45,6 +45,13 @@ class UserUpdateSegmentation(ActionGroup):
         if self.tracks.segmentation is None:
             raise ValueError("Cannot update non-existing segmentation.")
         try:
+            if new_value != 0 and updated_pixels:
+                # refuse a stroke over several time points before any edit is made: the
+                # rollback below recomputes features from the (already painted) array
+                all_times = np.concatenate([pixels[0] for pixels, _ in updated_pixels])
+                assert len(np.unique(all_times)) == 1, (
+                    "Can only update one time point at a time"
+                )
             for pixels, old_value in updated_pixels:
                 ndim = len(pixels)
                 if old_value == 0:
